@@ -396,8 +396,11 @@ where
         match result {
             Ok(response) => Ok(response.into()),
             Err(e) => {
-                if self.mac.get_fcnt_up() == fcnt_up {
-                    let _ = self.mac.rx2_complete();
+                if self.mac.get_fcnt_up() == fcnt_up
+                    && let mac::Response::SessionExpired = self.mac.rx2_complete()
+                {
+                    // that was the last frame counter of the session
+                    return Ok(SendResponse::SessionExpired);
                 }
                 Err(e)
             }
